@@ -568,8 +568,13 @@ impl<'a> UserModel<'a> {
             row += 1;
         }
         self.push_diff_list(diff_list);
-        // select the pasted area
-        self.set_selected_range(area.row, area.column, row - 1, last_column)?;
+        // Select the pasted area when it is on the selected sheet. The paste has
+        // already happened and is recorded: it must not be reported as failed
+        // because the selection could not follow it.
+        if self.get_selected_sheet() == sheet && self.set_selected_cell(area.row, area.column).is_ok()
+        {
+            let _ = self.set_selected_range(area.row, area.column, row - 1, last_column);
+        }
         self.evaluate_if_not_paused();
         Ok(())
     }
